@@ -2,6 +2,8 @@ package main
 
 import (
 	"regexp"
+	"go/token"
+	"slices"
 	"strconv"
 	"fmt"
 	"go/types"
@@ -384,6 +386,18 @@ func (g *Gen) verifyFunc(fn *ssa.Function, fc *FuncContract) (obs []*Obligation,
 			sort.Strings(bad)
 			ob.Result = "error"
 			ob.Output = "package-level variables read or written outside the allowed list: " + strings.Join(bad, ", ")
+		}
+		c.obs = append(c.obs, ob)
+	}
+	for k, cl := range fc.Ensures {
+		if !cl.Defines {
+			continue
+		}
+		ob := &Obligation{Name: fmt.Sprintf("%s#frame.defines:%d", shortName(fn.String()), k+1), Fn: fn.String(), Kind: "frame.defines", Result: "unsat",
+			Desc: "defines " + cl.Text + ": the body is a deterministic, effect-free scalar function of exactly the inputs the clause lists", Solver: "syntactic"}
+		if bad := definesViolations(fn, cl.Text); len(bad) > 0 {
+			ob.Result = "error"
+			ob.Output = "the body is not a function of the listed inputs alone: " + strings.Join(bad, "; ")
 		}
 		c.obs = append(c.obs, ob)
 	}
@@ -825,4 +839,94 @@ func lastretKey(arg string) string {
 		}
 	}
 	return "lastret " + normAnchor(arg)
+}
+
+// definesViolations decides the obligation behind a `defines result == f(a, p.x, ...)` clause over the SSA body: the
+// value returned is determined by the scalar parameters and the parameter fields that the clause mentions. Allowed
+// instructions: arithmetic that cannot panic (no division; shift counts constant or unsigned), conversions, loads of a
+// field of a parameter, branches, phis, returns. No call, store, allocation, global, closure variable, map, slice,
+// channel or pointer arithmetic. Every scalar parameter used and every field loaded must occur in the clause text.
+func definesViolations(fn *ssa.Function, text string) []string {
+	var bad []string
+	add := func(f string, a ...any) { bad = append(bad, fmt.Sprintf(f, a...)) }
+	mentions := func(s string) bool {
+		re := regexp.MustCompile(`(^|[^A-Za-z0-9_.])` + regexp.QuoteMeta(s) + `($|[^A-Za-z0-9_])`)
+		return re.MatchString(text)
+	}
+	if len(fn.FreeVars) > 0 {
+		add("closure variables")
+	}
+	fieldOfParam := map[ssa.Value]string{}
+	for _, b := range fn.Blocks {
+		for _, in := range b.Instrs {
+			switch x := in.(type) {
+			case *ssa.DebugRef, *ssa.Return, *ssa.If, *ssa.Jump, *ssa.Phi, *ssa.Convert, *ssa.ChangeType:
+			case *ssa.BinOp:
+				switch x.Op {
+				case token.QUO, token.REM:
+					add("division (may panic)")
+				case token.SHL, token.SHR:
+					if _, isConst := x.Y.(*ssa.Const); !isConst {
+						if bt, ok := x.Y.Type().Underlying().(*types.Basic); !ok || bt.Info()&types.IsUnsigned == 0 {
+							add("shift by a signed variable (may panic)")
+						}
+					}
+				}
+			case *ssa.FieldAddr:
+				p, ok := x.X.(*ssa.Parameter)
+				if !ok {
+					add("field address of a non-parameter")
+					break
+				}
+				st, _ := p.Type().Underlying().(*types.Pointer)
+				if st == nil {
+					add("field address through a non-pointer")
+					break
+				}
+				str, _ := st.Elem().Underlying().(*types.Struct)
+				if str == nil {
+					add("field address of a non-struct")
+					break
+				}
+				name := p.Name() + "." + str.Field(x.Field).Name()
+				fieldOfParam[x] = name
+				if !mentions(name) {
+					add("reads %s, which the clause does not list", name)
+				}
+			case *ssa.UnOp:
+				if x.Op == token.MUL {
+					if _, ok := fieldOfParam[x.X]; !ok {
+						add("load from memory other than a field of a parameter")
+					}
+				} else if x.Op == token.ARROW {
+					add("channel receive")
+				}
+			default:
+				add("instruction %T", in)
+			}
+			for _, op := range in.Operands(nil) {
+				if op == nil || *op == nil {
+					continue
+				}
+				switch v := (*op).(type) {
+				case *ssa.Global:
+					add("package-level variable %s", v.Name())
+				case *ssa.Parameter:
+					if fa, isFA := in.(*ssa.FieldAddr); isFA && fa.X == v {
+						continue
+					}
+					if _, isDbg := in.(*ssa.DebugRef); isDbg {
+						continue
+					}
+					if _, scalar := v.Type().Underlying().(*types.Basic); !scalar {
+						add("non-scalar parameter %s used as a value", v.Name())
+					} else if !mentions(v.Name()) {
+						add("uses parameter %s, which the clause does not list", v.Name())
+					}
+				}
+			}
+		}
+	}
+	sort.Strings(bad)
+	return slices.Compact(bad)
 }
